@@ -248,9 +248,95 @@ def _nnf(fn) -> int:
     return count
 
 
+def _simple(e) -> bool:
+    return isinstance(e, (ast.Name, ast.Constant)) or (isinstance(e, ast.Attribute) and _simple(e.value)) or (isinstance(e, ast.Starred) and _simple(e.value))
+
+
+def _lift_ifexp(e):
+    """(test, then-expression, else-expression) when `e` is a conditional expression, or a call / attribute access /
+    unary or binary operation with exactly one conditional-expression operand evaluated first among its non-trivial
+    parts (everything evaluated before it is a plain name, attribute or constant): `f(a, X if c else Y)` is
+    `f(a, X) if c else f(a, Y)`.  None otherwise."""
+    if isinstance(e, ast.IfExp):
+        return e.test, e.body, e.orelse
+    parts = []
+    if isinstance(e, ast.Call):
+        parts = [("func", None, e.func)] + [("args", i, a) for i, a in enumerate(e.args)] + [("keywords", i, k.value) for i, k in enumerate(e.keywords)]
+    elif isinstance(e, ast.Attribute):
+        parts = [("value", None, e.value)]
+    elif isinstance(e, ast.UnaryOp) and not isinstance(e.op, ast.Not):
+        parts = [("operand", None, e.operand)]
+    elif isinstance(e, ast.BinOp):
+        parts = [("left", None, e.left), ("right", None, e.right)]
+    elif isinstance(e, ast.Subscript):
+        parts = [("value", None, e.value), ("slice", None, e.slice)]
+    else:
+        return None
+    for k, (fld, idx, sub) in enumerate(parts):
+        if _simple(sub):
+            continue
+        inner = _lift_ifexp(sub) if isinstance(sub, (ast.IfExp, ast.Call, ast.Attribute, ast.BinOp, ast.UnaryOp, ast.Subscript)) else None
+        if inner is None or not all(_simple(x[2]) for x in parts[k + 1:] if False):
+            return None
+        # everything before was simple; the parts after it are evaluated after the test, in both branches alike
+        test, a, b = inner
+
+        def rebuild(repl):
+            new = _clone_expr(e)
+            if fld == "keywords":
+                new.keywords[idx].value = repl
+            elif idx is None:
+                setattr(new, fld, repl)
+            else:
+                getattr(new, fld)[idx] = repl
+            return new
+        return test, rebuild(a), rebuild(b)
+    return None
+
+
+def _ifexp_to_if(fn) -> int:
+    """N7: a conditional expression that decides the value of a return / assignment / expression statement becomes an if
+    statement (`return A if c else B` -> `if c: return A` / `return B`; `x = f(A if c else B)` -> `if c: x = f(A)` /
+    `else: x = f(B)`), provided everything the statement evaluates before the test is a plain name, attribute or
+    constant.  Same behaviour; rules then see one spelling."""
+    count, changed = 0, True
+    while changed:
+        changed = False
+        for n, fld, lst in list(_stmt_lists(fn)):
+            for i, st in enumerate(lst):
+                if isinstance(st, ast.Return) and st.value is not None:
+                    got = _lift_ifexp(st.value)
+                    mk = lambda v, st=st: ast.copy_location(ast.Return(value=v), st)
+                elif isinstance(st, ast.Assign) and all(_simple(t) for t in st.targets):
+                    got = _lift_ifexp(st.value)
+                    mk = lambda v, st=st: ast.copy_location(ast.Assign(targets=[_clone_target(t) for t in st.targets], value=v), st)
+                elif isinstance(st, ast.Expr) and not isinstance(st.value, ast.Constant):
+                    got = _lift_ifexp(st.value)
+                    mk = lambda v, st=st: ast.copy_location(ast.Expr(value=v), st)
+                else:
+                    continue
+                if got is None:
+                    continue
+                test, a, b = got
+                new_if = ast.copy_location(ast.If(test=test, body=[mk(a)], orelse=[mk(b)]), st)
+                lst[i] = new_if
+                ast.fix_missing_locations(new_if)
+                count += 1
+                changed = True
+                break
+            if changed:
+                break
+    return count
+
+
 def normalise(tree: ast.AST) -> dict:
-    stats = {"unelse": 0, "inlined_temporaries": 0, "merged_ifs": 0, "negations_pushed": 0}
+    stats = {"unelse": 0, "inlined_temporaries": 0, "merged_ifs": 0, "negations_pushed": 0, "ifexp_to_if": 0}
+    import os
+    n7 = os.environ.get("VERIF_N7", "0") == "1"
     for fn in [n for n in ast.walk(tree) if isinstance(n, (ast.FunctionDef, ast.AsyncFunctionDef))]:
+        stats["inlined_temporaries"] += _inline_temps(fn)
+        if n7:
+            stats["ifexp_to_if"] += _ifexp_to_if(fn)
         stats["unelse"] += _unelse(fn)
         stats["inlined_temporaries"] += _inline_temps(fn)
         stats["merged_ifs"] += _merge_nested_ifs(fn)
